@@ -294,11 +294,13 @@ def extract_router(src_root, vals):
     if 'attrs = request.__dict__' not in txt:
         raise Unknown('attrs = request.__dict__ not found')
     try:
+        a0 = txt.index('root_factory = self.root_factory')
         a = txt.index('root = root_factory(request)')
         b = txt.index('attrs.update(tdict)')
     except ValueError:
-        raise Unknown('root = root_factory(request) ... attrs.update(tdict) not found at the top level')
-    if not a < b:
+        raise Unknown('root_factory = self.root_factory ... root = root_factory(request) ... attrs.update(tdict) '
+                      'not found at the top level')
+    if not a0 < a < b:
         raise Unknown('statement order')
     sl = body[a:b + 1]
     key = None
@@ -330,7 +332,15 @@ def extract_router(src_root, vals):
                     raise Unknown('request.%s is overwritten after attrs.update(tdict)' % t.attr)
     vals['router_root_key'] = key
     vals['router_updates_attrs'] = True
-    return F.shape(ast.Module(body=sl, type_ignores=[]))
+    # the pinned slice: route matching (which match dictionary / root factory the traverser gets) .. attrs.update(tdict),
+    # with the `if debug_routematch:` logging blocks masked out
+    class Mask(ast.NodeTransformer):
+        def visit_If(self, n):
+            if ast.unparse(n.test) == 'debug_routematch':
+                return ast.Pass()
+            return self.generic_visit(n)
+    masked = [Mask().visit(copy.deepcopy(st)) for st in body[a0:b + 1]]
+    return F.shape(ast.Module(body=masked, type_ignores=[]))
 
 
 def _str(v):
@@ -358,25 +368,103 @@ def coq(vals):
     return ''.join(out)
 
 
+TRAVERSAL_BINDINGS = {
+    # names the pinned / translated functions of traversal.py resolve at module level
+    'lru_cache': ['from functools import lru_cache'], 'unquote_to_bytes': ['from urllib.parse import unquote_to_bytes'],
+    'url_quote': ['from pyramid.encode import url_quote'], 'URLDecodeError': ['from pyramid.exceptions import URLDecodeError'],
+    'VH_ROOT_KEY': ['from pyramid.interfaces import VH_ROOT_KEY'],
+    'IRequestFactory': ['from pyramid.interfaces import IRequestFactory'], 'ITraverser': ['from pyramid.interfaces import ITraverser'],
+    'lineage': ['from pyramid.location import lineage'],
+    'get_current_registry': ['from pyramid.threadlocal import get_current_registry'],
+    'ascii_': ['from pyramid.util import ascii_'], 'is_nonstr_iter': ['from pyramid.util import is_nonstr_iter'],
+    'text_': ['from pyramid.util import text_'],
+    'find_root': ['def'], 'find_resource': ['def'], 'traverse': ['def'], 'traversal_path': ['def'],
+    'traversal_path_info': ['def'], 'split_path_info': ['def'], 'decode_path_info': ['def'],
+    'unquote_bytes_to_wsgi': ['def'], 'quote_path_segment': ['def'], '_join_path_tuple': ['def'],
+    'ResourceTreeTraverser': ['class'], 'PATH_SEGMENT_SAFE': ['assign'], '_segment_cache': ['assign'],
+    'find_model': ['assign'], 'ModelGraphTraverser': ['assign'],
+}
+BUILTINS_USED = ('str', 'bytes', 'tuple', 'len', 'isinstance', 'hasattr', 'KeyError', 'AttributeError',
+                 'UnicodeDecodeError')
+
+
+def check_environment(src_root, problems, summary):
+    """fail-closed facts about what is NOT a function body: module-level bindings of traversal.py, the class body
+    of ResourceTreeTraverser, the initial value of _segment_cache, encode._url_quote, URLDecodeError's base class"""
+    try:
+        m = F.Module(src_root, 'pyramid/traversal.py')
+        binds = translate.module_bindings(m.tree)
+        for nm, want in sorted(TRAVERSAL_BINDINGS.items()):
+            if binds.get(nm, []) != want:
+                problems.append('module-level binding of %s in traversal.py is %s, expected %s'
+                                % (nm, binds.get(nm) or 'missing', want))
+        for nm in BUILTINS_USED:
+            if binds.get(nm):
+                problems.append('builtin %s is rebound at module level in traversal.py' % nm)
+        for nm, txt in (('_segment_cache', '{}'), ('find_model', 'find_resource'),
+                        ('ModelGraphTraverser', 'ResourceTreeTraverser')):
+            try:
+                got = ast.unparse(m.const_expr(nm))
+            except KeyError:
+                got = None
+            if got != txt:
+                problems.append('%s = %s at module level of traversal.py, expected %s' % (nm, got, txt))
+        cls = m.find('ResourceTreeTraverser')
+        if cls is not None:
+            members = []
+            for st in cls.body:
+                if isinstance(st, ast.Expr) and isinstance(st.value, ast.Constant):
+                    continue
+                members.append(ast.unparse(st).split('\n')[0] if not isinstance(st, ast.FunctionDef)
+                               else 'def ' + st.name)
+            want = ['VH_ROOT_KEY = VH_ROOT_KEY', "VIEW_SELECTOR = %r" % ast.literal_eval(
+                [st.value for st in cls.body if isinstance(st, ast.Assign) and ast.unparse(st.targets[0]) == 'VIEW_SELECTOR'][0]),
+                'def __init__', 'def __call__']
+            if members != want:
+                problems.append('class body of ResourceTreeTraverser is %s, expected %s' % (members, want))
+            decos = [ast.unparse(d) for d in cls.decorator_list]
+            if decos != ['implementer(ITraverser)'] or cls.bases or cls.keywords:
+                problems.append('ResourceTreeTraverser: decorators %s / bases / keywords changed' % decos)
+            summary['pyramid/traversal.py:class ResourceTreeTraverser (body)'] = members
+    except Exception as e:
+        problems.append('environment facts of traversal.py unrecognised: %r' % e)
+    try:
+        me = F.Module(src_root, 'pyramid/encode.py')
+        b = translate.module_bindings(me.tree)
+        if b.get('_url_quote') != ['from urllib.parse import quote'] or b.get('url_quote') != ['def']:
+            problems.append('pyramid/encode.py: _url_quote / url_quote bound as %s / %s' % (b.get('_url_quote'), b.get('url_quote')))
+    except Exception as e:
+        problems.append('pyramid/encode.py unrecognised: %r' % e)
+    try:
+        mx = F.Module(src_root, 'pyramid/exceptions.py')
+        c = mx.find('URLDecodeError')
+        if c is None or [ast.unparse(x) for x in c.bases] != ['UnicodeDecodeError'] \
+                or any(isinstance(st, ast.FunctionDef) for st in c.body):
+            problems.append('pyramid/exceptions.py: URLDecodeError is not a plain subclass of UnicodeDecodeError')
+    except Exception as e:
+        problems.append('pyramid/exceptions.py unrecognised: %r' % e)
+
+
 def facts(src_root):
     problems = []
     summary = F.check_shapes(src_root, os.path.join(HERE, 'pins.json'), problems)
+    check_environment(src_root, problems, summary)
     vals, p2, skeleton = extract(src_root)
     problems += p2
     with open(os.path.join(HERE, 'skeleton.json')) as f:
         wants = json.load(f)
     skeleton = skeleton or {}
-    want = wants['ResourceTreeTraverser.__call__[preamble]']
+    want = wants.get('pyramid/traversal.py', {}).get('ResourceTreeTraverser.__call__')
     summary['pyramid/traversal.py:ResourceTreeTraverser.__call__[preamble]'] = skeleton.get('call')
     if skeleton.get('call') is not None and skeleton['call'] != want:
         problems.append('shape pin pyramid/traversal.py:ResourceTreeTraverser.__call__ (the statements before '
                         '`root = self.root`, vroot_idx expressions blanked) changed (%s -> %s): the hand-written '
                         'path_and_subpath / vroot_part follow the previous text' % (want, skeleton['call']))
-    wantr = wants.get('Router.handle_request[traversal]')
+    wantr = wants.get('pyramid/router.py', {}).get('Router.handle_request')
     summary['pyramid/router.py:Router.handle_request[traversal part]'] = skeleton.get('router')
     if skeleton.get('router') is not None and skeleton['router'] != wantr:
-        problems.append('shape pin pyramid/router.py:Router.handle_request (statements root = root_factory(request) '
-                        '.. attrs.update(tdict)) changed (%s -> %s): the model of the attribute copy follows the '
+        problems.append('shape pin pyramid/router.py:Router.handle_request (statements root_factory = self.root_factory '
+                        '.. attrs.update(tdict), debug_routematch logging masked) changed (%s -> %s): the model of the attribute copy follows the '
                         'previous text' % (wantr, skeleton['router']))
     summary.update({k: vals[k] for k in vals})
     # control flow of split_path_info / decode_path_info / traversal_path_info / the tail of __call__,
